@@ -249,7 +249,8 @@ Notation db := (db V).
 
 Definition merge_keys' (isc : bool) (n : node) (ks : list str) : option (list str) :=
   if isc then
-    if str_eqb (last_key ks) (last_key (keys n)) then Some ks else None
+    if str_eqb (last_key ks) (last_key (keys n)) && (is_nil (keys n) || keys_eqb (keys n) ks)
+    then Some ks else None
   else
     match ks with
     | [] => Some (keys n)
@@ -882,6 +883,7 @@ Lemma add_node_cons f (n : tree) token rest0 wk ins :
                       | None => (child_created V n, leaf name)
                       end in
       if negb (str_eqb (skipn 1 path) (t_path c)) then TInvalid else
+      if negb (is_nil (t_keys c)) && negb (keys_eqb (t_keys c) (wk ++ [name])) then TInvalid else
       match put_value V can_add v flag (set_keys V c (wk ++ [name])) with
       | TOk c' => TOk (set_catch V n1 c')
       | e => e
@@ -1048,8 +1050,10 @@ Proof.
       apply andb_true_iff in H5 as [H5 Hfl]. apply andb_true_iff in H5 as [H5 Hlk].
       apply andb_true_iff in H5 as [Hleaf Hv]. apply str_eqb_eq in Hlk.
       unfold add_kind, upd', merge_keys'. rewrite last_key_snoc. cbn [node_of keys vals]. rewrite Hlk.
-      destruct (str_eqb rest0 (t_path c)) eqn:En; cbn [negb]; [|split; [reflexivity | discriminate]].
+      destruct (str_eqb rest0 (t_path c)) eqn:En; cbn [negb andb]; [|split; [reflexivity | discriminate]].
       apply str_eqb_eq in En.
+      rewrite <- negb_orb.
+      destruct (is_nil (t_keys c) || keys_eqb (t_keys c) (wk ++ [rest0])); cbn [negb]; [|split; [reflexivity | discriminate]].
       rewrite put_value_eq.
       replace (t_vals (set_keys V c (wk ++ [rest0]))) with (t_vals c) by (destruct c; reflexivity).
       replace (t_keys (set_keys V c (wk ++ [rest0]))) with (wk ++ [rest0]) by (destruct c; reflexivity).
